@@ -187,7 +187,8 @@ def toDictK : List (Str × PV) → List (Str × PV)
 end
 
 mutual
-/-- `dataclasses.asdict` applied below an instance: instances become dicts, tuples stay tuples -/
+/-- `dataclasses.asdict` applied below an instance: instances become dicts, tuples stay tuples
+(no longer used by `parseValue` since commit f3ca37f; kept for the lemmas about the old route) -/
 def asdict : PV → PV
   | .list xs => .list (asdictL xs)
   | .tuple xs => .tuple (asdictL xs)
@@ -335,8 +336,9 @@ def parseValue : Ty → PV → Path → R PV
   | .struct name fs, v, p =>
     match v with
     | .dict kvs => structResult name (fieldNames fs) kvs p (parseFields fs kvs p)
-    -- `dataclasses.is_dataclass(val)`: parse `dataclasses.asdict(val)`
-    | .inst _ ifs => structResult name (fieldNames fs) (asdictK ifs) p (parseFields fs (asdictK ifs) p)
+    -- `dataclasses.is_dataclass(val)`: parse `{f.name: getattr(val, f.name) for f in fields(val) if f.init}` — the
+    -- instance's own items, unconverted (nested instances are handled when their own field is parsed)
+    | .inst _ ifs => structResult name (fieldNames fs) ifs p (parseFields fs ifs p)
     | _ => mismatch p
 /-- the element loop of a fixed-length tuple (lengths are equal when this is called) -/
 def parseTuple : List Ty → List PV → Nat → Path → R (List PV)
